@@ -67,6 +67,15 @@ Legal == LayoutLegal(NonEmpty(layers), Items(prog))
 Unitary == \A j \in 1..Len(prog) : prog[j] <= NGATES
 \* reading the layers in layer order denotes the same map as the program (disjoint gates commute)
 DenLayout == Unitary => Den(LayoutProg(NonEmpty(layers), Items(prog)), N) = Den(Items(prog), N)
+\* the functional form of the packing (used by the trace specification) is the stepwise one
+PackIsFold == layers = PackProg(Items(prog))
+\* compose(): re-taking the second half layer by layer gives a legal packing with the same denotation, for every split
+ComposeLegal == Unitary => \A h \in 0..Len(prog) :
+    LET it == Items(prog)  L == NonEmpty(ComposePack(it, h)) IN
+    /\ LayoutLegal(L, it)
+    /\ Den(LayoutProg(L, it), N) = Den(it, N)
+\* (quick tier: legality only; the denotation part costs 50 s for 4369 programs)
+ComposeLegalQ == Unitary => \A h \in 0..Len(prog) : LayoutLegal(NonEmpty(ComposePack(Items(prog), h)), Items(prog))
 \* backward is the exact inverse of forward
 RoundTrip == Unitary =>
     LET it == Items(prog) IN
